@@ -97,7 +97,45 @@ func anchorValues(p, q string) []string {
 	return []string{p, q, p + "uction", p + "x", "pre-" + q, "x" + q, p + q, q + p, p + "$", p + "$x", "", "^" + p, "x" + p + "y", q + "x", p + "\n", "x\n" + q}
 }
 
+// a long alternation of literals with escaped metacharacters (a maintenance silence or a route listing hosts):
+// 15, 16, 17 or 40 alternatives, sometimes with one non-literal alternative mixed in; and values that are a
+// member, a non-member, the escaped SOURCE TEXT of a member, a member with a suffix, nothing
+func genLongAlt(r *vh.Rand) (M, KV) {
+	n := vh.Pick(r, []int{15, 16, 16, 17, 17, 40})
+	style := r.Intn(4)
+	lit := func(i int) (src, val string) {
+		switch style {
+		case 0:
+			return fmt.Sprintf(`db%d\.prod\.example\.com:9100`, i), fmt.Sprintf("db%d.prod.example.com:9100", i)
+		case 1:
+			return fmt.Sprintf(`web\-%d`, i), fmt.Sprintf("web-%d", i)
+		case 2:
+			return fmt.Sprintf(`cost\$%d`, i), fmt.Sprintf("cost$%d", i)
+		default:
+			return fmt.Sprintf(`C:\\dir%d`, i), fmt.Sprintf(`C:\dir%d`, i)
+		}
+	}
+	var alts []string
+	for i := 0; i < n; i++ {
+		src, _ := lit(i)
+		alts = append(alts, src)
+	}
+	mixed := r.Chance(1, 4)
+	if mixed {
+		alts[r.Intn(n)] = vh.Pick(r, []string{"x.*", "[ab]", "(?i)q", "a|b"})
+	}
+	k := r.Intn(n)
+	src, val := lit(k)
+	_, other := lit(n + 3)
+	v := vh.Pick(r, []string{val, val, val, other, src, val + "x", "x" + val, "", val + "\n"})
+	name := vh.Pick(r, semNames)
+	return M{T: vh.Pick(r, []int{2, 2, 3}), N: []byte(name), V: []byte(strings.Join(alts, "|"))}, KV{[]byte(name), []byte(v)}
+}
+
 func genShapePair(r *vh.Rand) (M, KV) {
+	if r.Chance(1, 6) {
+		return genLongAlt(r)
+	}
 	if r.Chance(1, 3) {
 		alt := vh.Pick(r, anchorAlts)
 		n := vh.Pick(r, semNames)
@@ -135,6 +173,8 @@ func countShape(run *vh.Run, m M, v string, present bool) {
 	p := string(m.V)
 	isLit := func(x string) bool { return x != "" && regexp.QuoteMeta(x) == x }
 	switch {
+	case strings.Count(p, "|") >= 14:
+		shape = fmt.Sprintf("alternation of %d (escaped literals)", strings.Count(p, "|")+1)
 	case strings.HasPrefix(p, "^") && strings.HasSuffix(p, "$") && len(p) > 2:
 		shape = "user-anchored ^...$"
 	case strings.HasPrefix(p, "^") || strings.HasSuffix(p, "$"):
